@@ -79,6 +79,7 @@ impl TypeScriptBindingsGenerator {
         context.insert("header", &self.generate_file_header());
         context.insert("commands", &command_contexts);
         context.insert("has_channels", &has_channels);
+        context.insert("mapped_types", &TypeCollector::mapped_type_targets(config));
 
         self.render("typescript/commands.ts.tera", &context)
             .unwrap_or_else(|e| {
@@ -117,6 +118,7 @@ impl TypeScriptBindingsGenerator {
         let mut context = Context::new();
         context.insert("header", &self.generate_file_header());
         context.insert("events", &event_contexts);
+        context.insert("mapped_types", &TypeCollector::mapped_type_targets(config));
 
         self.render("typescript/events.ts.tera", &context)
             .unwrap_or_else(|e| {
